@@ -26,9 +26,14 @@ CABI = os.path.join(tlc.VERIF, "corpus", "cabi", "cabi.ndjson")
 # generous: on an otherwise idle 16-core machine the longest single run takes a few minutes; the machine may be shared
 TLC_TIMEOUT = int(os.environ.get("C16_TLC_TIMEOUT", "21600"))
 
+# at most this many TLC JVMs of this check at a time (the machine-wide slot limiter of harness/tlc.py is shared)
+GATE = threading.BoundedSemaphore(int(os.environ.get("C16_MAX_JVMS", "7")))
+
+
 def _gen(cfg, kind, seed, simulate, depth, workers, wd, out):
     spool = os.path.join(wd, kind + ".spool")
     try:
+      with GATE:
         res = tlc.run("CStruct", cfg, simulate=simulate, depth=depth, seed=seed if simulate else None,
                       spool=spool, tag="c16" + kind, timeout=TLC_TIMEOUT, workers=workers,
                       env={"C16_PHASE": seed})  # which residue class a strided (quick) configuration samples
@@ -42,6 +47,7 @@ def _tref(rows, shard, wd, out):
     with open(path, "w") as f:
         f.write("".join(rows))
     try:
+      with GATE:
         res = tlc.run("CStructTrace", "CStructTrace.cfg", tag="c16t%d" % shard, workers=2, timeout=TLC_TIMEOUT,
                       env={"ROWS_FILE": path, "ROWS_LO": 1, "ROWS_HI": len(rows)})
         out["tref%d" % shard] = (res, len(rows))
@@ -86,19 +92,20 @@ def run(ctx):
     if quick:
         # strided samples of the exhaustive enumerations (the seed chooses the residue class) + a small simulation
         gens = [("CStructGen_quick.cfg", "flat", None, None, 4),
-                ("CStructGenNest_quick.cfg", "nest", None, None, 4),
-                ("CStructGenVar_quick.cfg", "var", None, None, 3),
-                ("CStructGenUnion_quick.cfg", "union", None, None, 1),
-                ("CStructSim_quick.cfg", "sim", "num=20", 60, 4)]
+                ("CStructGenNest_quick.cfg", "nest", None, None, 8),
+                ("CStructGenVar_quick.cfg", "var", None, None, 4),
+                ("CStructGenUnion_quick.cfg", "union", None, None, 2),
+                ("CStructSim_quick.cfg", "sim", "num=3", 60, 8)]
     else:
-        gens = [("CStructGen_all.cfg", "flat", None, None, 4),
-                ("CStructGenNest_all.cfg", "nest", None, None, 4),
-                ("CStructGenVar_all.cfg", "var", None, None, 2),
-                ("CStructGenUnion_all.cfg", "union", None, None, 1),
-                ("CStructGen_thorough.cfg", "flat4", None, None, 8),
+        # (longest first: at most C16_MAX_JVMS run at a time)
+        gens = [("CStructSim.cfg", "sim", "num=250", 60, 8),
                 ("CStructGenNest_thorough.cfg", "nest3", None, None, 8),
+                ("CStructGen_thorough.cfg", "flat4", None, None, 8),
                 ("CStructGenNest2_thorough.cfg", "nest2", None, None, 8),
-                ("CStructSim.cfg", "sim", "num=250", 60, 8)]
+                ("CStructGenNest_all.cfg", "nest", None, None, 4),
+                ("CStructGen_all.cfg", "flat", None, None, 4),
+                ("CStructGenVar_all.cfg", "var", None, None, 2),
+                ("CStructGenUnion_all.cfg", "union", None, None, 1)]
     for cfg, kind, sim, depth, w in gens:
         t = threading.Thread(target=_gen, args=(cfg, kind, ctx.seed, sim, depth, w, wd, out))
         t.start()
